@@ -6,11 +6,11 @@ CONSTANTS
   Args <- MCArgs
   PreArgs <- MCPreArgs
   Record = TRUE
-  MCN = 4
+  MCN = 3
   MaxLen = 2
-  Alphabet = "sim"
-  Prefits = {"none", "fit", "fitbase"}
-  CfgSel = "all"
-  Sample = 4
-  Depth = 6
+  Alphabet = "tiny"
+  Prefits = {"none"}
+  CfgSel = "core"
+  Sample = 0
+  Depth = 3
 CHECK_DEADLOCK FALSE
